@@ -28,6 +28,8 @@ DROPPED = ["visibility qualifiers (pub, pub(crate), pub(super))",
            "debug_assert!(..) / debug_assert_eq!(..) / debug_assert_ne!(..) and log::*!(..) statements",
            "display-only statements `<v>.iter().for_each(|e| { crate::display_error(e); });`",
            "module-level `const` items of the source file that the extracted code refers to and the unit does not define are extracted with it",
+           "where a unit says foreach_rule: a statement `<it>.for_each(|<pat>| { <body> });` is rewritten to `for <pat> in <it> { <body> }` (the definition of Iterator::for_each; Verus takes no closure capturing `&mut` state)",
+           "where a unit says closure_contracts: the parameter list of a named closure is replaced by an annotated one (types, named result, requires/ensures) and its body, untouched, is wrapped in braces (Verus does not infer closure postconditions)",
            "where a unit says msg_rule: message-text expressions (`format!(..)`, `\"literal\".into()`) are replaced by an opaque opaque_msg()"]
 
 
@@ -93,6 +95,103 @@ def rewrite(txt, keep_pub=False):
     # a logging call as the (unit-valued) tail expression of a block: `{ log::info!(..) }` -> `{ }`
     txt = re.sub(r"(?s)\blog::(trace|debug|info|warn|error)!\s*\((?:[^()]|\((?:[^()]|\([^()]*\))*\))*\)(?=\s*\})", "", txt)
     return txt
+
+
+def foreach_rule(txt):
+    """`<recv>.for_each(|<pat>| { <body> });` as a statement -> `for <pat> in <recv> { <body> }`.
+    `Iterator::for_each` is by definition the loop calling the closure on each item in order (core docs), so this is a
+    desugaring; it is needed because Verus takes neither closures that capture `&mut` state nor closure parameter
+    patterns. Only statement-position calls whose closure body is a block are rewritten; anything else is left alone
+    (and then fails as unsupported -> inconclusive)."""
+    out = txt
+    pos = 0
+    while True:
+        k = out.find(".for_each(|", pos)
+        if k < 0:
+            return out
+        # receiver: from the start of the statement (after the previous `;`, `{` or `}`) to k
+        j = k
+        depth = 0
+        while j > 0:
+            c = out[j - 1]
+            if c in ")]":
+                depth += 1
+            elif c in "([":
+                depth -= 1
+            elif depth == 0 and c in ";{}":
+                break
+            j -= 1
+        recv = out[j:k].strip()
+        p0 = k + len(".for_each(|")
+        p1 = out.index("|", p0)
+        pat = out[p0:p1].strip()
+        b0 = p1 + 1
+        while out[b0].isspace():
+            b0 += 1
+        if out[b0] != "{" or not recv:
+            pos = k + 1
+            continue
+        b1 = match_brace(out, b0)
+        m = re.match(r"\s*\)\s*;?", out[b1:])
+        if not m:
+            pos = k + 1
+            continue
+        lead = out[j:k][: len(out[j:k]) - len(out[j:k].lstrip())]
+        out = out[:j] + lead + "for " + pat + " in " + recv + "\n" + out[b0:b1] + out[b1 + m.end():]
+        pos = j + 1
+
+
+def closure_contracts(txt, specs, key):
+    """Verus does not infer what a closure returns: where a closure's result matters its contract must be written in the
+    closure header. Each spec {"at": "<text ending in the closure's parameter list, e.g. `.sort_unstable_by(|a, b|`>",
+    "header": "<annotated parameter list and clauses>"} replaces the parameter list by the annotated one and wraps the
+    closure body - whatever it is, found by delimiter matching - in braces. The body text is never touched."""
+    out = txt
+    for sp in specs:
+        at = sp["at"]
+        if out.count(at) != 1:
+            raise ExtractError(f"lost anchor for closure contract: `{at}` in {key}")
+        k = out.index(at)
+        # start of the parameter list: the `|` that opens it
+        plist = sp.get("params") or at[at.index("|"):]
+        p0 = k + len(at) - len(plist)
+        b0 = k + len(at)
+        # an explicit return type written in the code is dropped in favour of the annotated header
+        m = re.match(r"\s*->\s*[^{]+", out[b0:])
+        if m:
+            b0 += m.end()
+        while out[b0].isspace():
+            b0 += 1
+        if out[b0] == "{":
+            b1 = match_brace(out, b0)
+            body = out[b0:b1]
+        else:
+            depth = 0
+            i = b0
+            in_str = False
+            while i < len(out):
+                c = out[i]
+                if in_str:
+                    if c == "\\":
+                        i += 2
+                        continue
+                    if c == '"':
+                        in_str = False
+                elif c == '"':
+                    in_str = True
+                elif c in "([{":
+                    depth += 1
+                elif c in ")]}":
+                    if depth == 0:
+                        break
+                    depth -= 1
+                elif c in ",;" and depth == 0:
+                    break
+                i += 1
+            b1 = i
+            body = "{ " + out[b0:b1].rstrip() + " }"
+        out = out[:p0] + sp["header"] + "\n" + body + out[b1:]
+    return out
 
 
 def _match_paren(text, i):
@@ -386,15 +485,21 @@ def extract_item(e, vac=False):
     end = match_brace(t, s)
     item = t[s:end]
     item = rewrite(item, e.get("keep_pub", False))
+    if e.get("foreach_rule"):
+        item = foreach_rule(item)
     if e.get("abstract_fields") is not None:
         # struct item: every field type is abstracted to u64 (equality-preserving), except the listed fields
         keep = set(e["abstract_fields"])
         def _abs(m):
             return m.group(0) if m.group(2) in keep else f"{m.group(1)}{m.group(2)}: u64,"
         item = re.sub(r"(?m)^(\s*)(\w+):\s*[^\n]+?,\s*$", _abs, item)
-    for a, b in e.get("sig_subst", []):
-        # textual substitution in the signature (type erasure of reader type parameters)
-        if item.count(a) != 1:
+    if e.get("closure_contracts"):
+        item = closure_contracts(item, e["closure_contracts"], e["key"])
+    for sub in e.get("sig_subst", []):
+        # textual substitution in the signature (type erasure of reader type parameters); optional third element: occurrences
+        a, b = sub[0], sub[1]
+        want = sub[2] if len(sub) > 2 else 1
+        if item.count(a) != want:
             raise ExtractError(f"lost anchor for signature substitution: `{a}` in {e['key']}")
         item = item.replace(a, b)
     if e.get("generic_T"):
